@@ -57,13 +57,14 @@ def _write(p, s):
 def build_stage():
 	"""Copy /repo's working tree to STAGE and apply every overlay in /verif/harness/*/overlay.json."""
 	os.makedirs(WORK, exist_ok=True)
-	r = sh(["rsync", "-a", "--delete", "--exclude", "/target", "--exclude", ".git", "--exclude", "/testdata",
-		"--exclude", "/tmp", REPO + "/", STAGE + "/"])
+	r = sh(["rsync", "-a", "--delete", "--exclude", "/target", "--exclude", ".git", "--exclude", "/tmp", REPO + "/", STAGE + "/"])
 	if r.returncode != 0:
 		raise OverlayError("rsync failed: " + r.stdout)
 	hroot = os.path.join(VERIF, "harness")
 	for group in sorted(os.listdir(hroot)):
 		ov = os.path.join(hroot, group, "overlay.json")
+		if not os.path.exists(ov) and os.environ.get("VERIF_DEV"):
+			ov = os.path.join(hroot, group, "overlay.dev.json")  # overlay under development, not yet registered
 		if not os.path.exists(ov):
 			continue
 		spec = json.load(open(ov))
@@ -242,6 +243,8 @@ def kani_cmd(h, extra=()):
 	if h.unwindset_resolved:
 		cb += ["--unwindset", ",".join(f"{lid}:{n}" for lid, n in h.unwindset_resolved)]
 	if cb:
+		if "unstable-options" not in cmd:
+			cmd += ["-Z", "unstable-options"]
 		cmd += ["--cbmc-args"] + cb
 	return cmd
 
@@ -284,25 +287,22 @@ def run_harness(h, tier, timeout_default, mem_default):
 	os.makedirs(LOGS, exist_ok=True)
 	logp = os.path.join(LOGS, f"{h.crate}-{h.name}.log")
 	res.log = logp
-	timeout = h.timeout or timeout_default
-	mem_gb = h.mem_gb or mem_default
+	timeout = int(os.environ.get("VERIF_TIMEOUT", 0) or 0) or h.timeout or timeout_default
+	mem_gb = float(os.environ.get("VERIF_MEM_GB", 0) or 0) or h.mem_gb or mem_default
 	t0 = time.time()
 	h.unwindset_resolved = None
-	with open(logp, "w") as log:
-		if h.unwindset:
-			# pass 1: build + link only (tiny solver budget), to learn the loop ids
-			cmd = kani_cmd(h, ["--only-codegen"])
-			subprocess.run(cmd, cwd=WS, env=ENV, stdout=log, stderr=subprocess.STDOUT)
-			# --only-codegen stops before linking; run with a 1-second harness budget to get the .out
+	if h.unwindset:
+		# pass 1: build + link only (1-second solver budget) to learn the loop ids of the linked goto binary
+		with open(logp + ".pass1", "w") as log1:
 			cmd = kani_cmd(h, ["-Z", "unstable-options", "--harness-timeout", "1"])
-			subprocess.run(cmd, cwd=WS, env=ENV, stdout=log, stderr=subprocess.STDOUT)
-			ids = resolve_unwindset(h, log)
-			if ids is None:
-				res.reason = "could not resolve per-loop unwind bounds"
-				res.wall_s = time.time() - t0
-				return res
-			h.unwindset_resolved = ids
-			log.flush()
+			run_limited(cmd, WS, log1, timeout, mem_gb)
+			ids = resolve_unwindset(h, log1)
+		if ids is None:
+			res.reason = "could not resolve per-loop unwind bounds"
+			res.wall_s = time.time() - t0
+			return res
+		h.unwindset_resolved = ids
+	with open(logp, "w") as log:
 		cmd = kani_cmd(h)
 		log.write(f"[vlib] {' '.join(_q(c) for c in cmd)}\n")
 		log.flush()
@@ -410,12 +410,13 @@ def replay_playback(h, prop, res):
 			cmd = ["cargo", "kani", "playback", "-Z", "concrete-playback", "-p", h.crate]
 			if profile == "release":
 				cmd += ["--release"]
-			cmd += ["--"] + names[:1]
+			# one generated test per cover / failed check: run them all, any native failure reproduces the counterexample
+			cmd += ["--", f"kani_concrete_playback_{h.name}"]
 			env = dict(ENV)
 			env["CARGO_TARGET_DIR"] = os.path.join(WORK, "target-playback")
 			r = subprocess.run(cmd, cwd=rws, env=env, stdout=subprocess.PIPE, stderr=subprocess.STDOUT, text=True, timeout=3600)
 			tail = r.stdout[-3000:]
-			failed = bool(re.search(r"test result: FAILED|panicked at|\bFAILED\b", r.stdout)) and "could not compile" not in r.stdout
+			failed = bool(re.search(r"test result: FAILED|panicked at|\bFAILED\b|test exited abnormally|SIGABRT|SIGSEGV|memory allocation of \d+ bytes failed|stack overflow", r.stdout)) and "could not compile" not in r.stdout
 			passed = bool(re.search(r"test result: ok. [1-9]", r.stdout))
 			out.append(f"--- {profile}: {'REPRODUCED' if failed else ('passes' if passed else 'no result')}\n{tail}\n")
 			if failed:
@@ -470,7 +471,7 @@ def match_known(known, prop, h, f):
 # ---------------------------------------------------------------------------------------------
 # main entry: run one property
 # ---------------------------------------------------------------------------------------------
-def run_property(prop, harnesses, tier, meta):
+def run_property(prop, harnesses, tier, meta, extra=None):
 	"""meta: dict(level, assumptions, trusted_base, out_of_claim, ...)."""
 	t0 = time.time()
 	seed = int(os.environ.get("VERIF_SEED", "0") or 0)
@@ -540,18 +541,28 @@ def run_property(prop, harnesses, tier, meta):
 			rc = 1
 		else:
 			inconclusive.append(f"{r.h.name}: solver counterexample did not reproduce natively ({detail}): {desc}")
+	extra_out = None
+	if extra is not None:
+		# a second engine contributes queries of its own (e.g. MIR -> SMT), merged into the same verdict and evidence
+		extra_out = extra(prop, tier)
+		for line in extra_out.get("lines", []):
+			print(line)
+		nviol += extra_out.get("violations", 0)
+		if extra_out.get("rc") == 1:
+			rc = 1
+		inconclusive += extra_out.get("inconclusive", [])
 	for i in inconclusive:
 		print(f"INCONCLUSIVE property={prop} {i}")
 	if inconclusive and rc == 0:
 		rc = 2
-	write_evidence(prop, tier, seed, results, meta, time.time() - t0, nviol, inconclusive, known_hits)
+	write_evidence(prop, tier, seed, results, meta, time.time() - t0, nviol, inconclusive, known_hits, extra_out)
 	ok = sum(1 for r in results if r.status == "success")
 	print(f"[{prop}] tier={tier} harnesses={len(results)} proven={ok} known-findings={len(printed)} violations={nviol} "
 		f"inconclusive={len(inconclusive)} wall={time.time() - t0:.0f}s")
 	return rc
 
 
-def write_evidence(prop, tier, seed, results, meta, wall, nviol, inconclusive, known_hits):
+def write_evidence(prop, tier, seed, results, meta, wall, nviol, inconclusive, known_hits, extra_out=None):
 	os.makedirs(os.path.join(VERIF, "evidence"), exist_ok=True)
 	obligations = sum(r.checks for r in results)
 	discharged = sum(r.checks - len(r.failed) for r in results if r.status in ("success", "failed"))
@@ -566,13 +577,21 @@ def write_evidence(prop, tier, seed, results, meta, wall, nviol, inconclusive, k
 			"solver_s": round(r.solver_s, 2), "wall_s": round(r.wall_s, 1), "extra_stubs": r.h.stubs,
 		})
 	funcs = sorted({f for r in results for f in r.h.funcs})
+	xq = (extra_out or {}).get("queries", [])
+	xgood = [q for q in xq if q["verdict"] == q["expected"]]
+	if extra_out:
+		samples += [{"engine": "mir-smt", **x} for x in extra_out.get("samples", [])]
+		funcs += extra_out.get("funcs", [])
+		obligations += len(xq)
+		discharged += len(xgood)
+		nontrivial += len({(q.get("flags"), q["query"]) for q in xgood})
 	ev = {
 		"property_id": prop,
 		"tier": tier,
 		"seed": seed,
 		"level": meta.get("level", "model_checking"),
 		"coverage": {
-			"evaluations": max(1, len(results)) if results else 0,
+			"evaluations": (max(1, len(results)) if results else 0) + len(xq),
 			"distinct_nontrivial": nontrivial,
 			"rule": "one solver query (Kani/CBMC, CaDiCaL) per harness instance over kani::any() inputs; an instance is "
 				"non-trivial when it reached a verdict and at least one of its reachability covers was satisfied "
@@ -583,7 +602,8 @@ def write_evidence(prop, tier, seed, results, meta, wall, nviol, inconclusive, k
 			"checker_cmd": "cargo kani -p <crate> --harness <h> --exact -Z stubbing (CBMC 6.11.0, cadical), regenerated from /repo's working tree",
 			"trusted_base": ["rustc + Kani 0.68 codegen", "CBMC 6.11.0", "CaDiCaL"] + meta.get("trusted_base", []),
 			"functions_encoded": funcs,
-			"solver_seconds": round(sum(r.solver_s for r in results), 1),
+			"solver_seconds": round(sum(r.solver_s for r in results) + sum(q.get("seconds", 0) for q in xq), 1),
+			"smt_queries": xq,
 			"inconclusive": inconclusive,
 			"known_findings_hit": sorted({k["id"] for k, _r, _f in known_hits}),
 			"outside_claim": meta.get("out", []),
